@@ -568,8 +568,11 @@ func (c *loopCtx) sortedAfter(p *Prog) bool {
 		for _, u := range uses {
 			if ci, ok := u.(ssa.CallInstruction); ok {
 				if f := ci.Common().StaticCallee(); f != nil {
-					switch shortName(f) {
-					case "sort.Strings", "sort.Slice", "sort.SliceStable", "slices.Sort", "slices.SortFunc", "slices.SortStableFunc", "sort.Ints":
+					fnm, _, _ := strings.Cut(shortName(f), "[")
+					switch fnm {
+					case "sort.Strings", "slices.Sort", "sort.Ints":
+						// only total orders on the elements themselves: a sort by a partial key
+						// (sort.Slice / SortFunc) leaves ties in collection order, i.e. map order
 						sorts = append(sorts, u)
 					}
 				}
